@@ -51,7 +51,7 @@ func decKindCPU(kind string) int {
 		return 120
 	}
 	switch class, _ := splitKind(kind); class {
-	case "tinybig", "hugetight", "longmatch", "manyseq":
+	case "tinybig", "hugetight", "longmatch", "manyseq", "giant":
 		return 120
 	}
 	return 20
@@ -714,7 +714,7 @@ func (p *c18prop) CaseCPU(tier string) int { return 120 }
 
 // KindCPU: the enumerations on small geometries stay far below a second.
 func (p *c18prop) KindCPU(kind, tier string) int {
-	if kind == "big" {
+	if kind == "big" || c18scaleKind(kind) {
 		return 120
 	}
 	return 30
